@@ -321,6 +321,25 @@ def judge_c05(rec, check_trace=True):
             out.append(V('paused-after-play', 'paused-after-play:%s' % pat(expect_unpaused),
                          'process reports paused at %s although the last request was play()' % (e[1],)))
             expect_unpaused = None
+    # a pause takes effect at the next step boundary (unless played / killed / terminated first) and its future says so
+    for a in acts:
+        if a['kind'] != 'pause' or not a['live_before'] or a['ret'][0] == 'raise' or a['ret'] == ['value', False]:
+            continue
+        for q in rec['qpoints']:
+            if q['nacts'] <= a['n']:
+                continue
+            between = [b['kind'] for b in acts[a['n'] + 1:q['nacts']]]
+            if any(k in ('play', 'kill', 'cancel_future', 'fail') for k in between) or _selfctl_between(rec, a['n'], q):
+                break
+            if not q['paused'] and not q['terminated']:
+                out.append(V('pause-lost', 'pause-lost:%s' % pat(a['n']),
+                             'pause() accepted (%s) but at the next quiescent point the process is %s and not paused' % (a['ret'], q['state'])))
+            elif q['paused'] and a['ret'] == ['future']:
+                desc = [d for n, d in q['futs'] if n == a['n']]
+                if desc and desc[0] != ['result', True]:
+                    out.append(V('pause-future-mismatch', 'pause-future-mismatch:%s:%s' % (desc[0][0], pat(a['n'])),
+                                 'the process paused but the future returned by pause() is %s' % (desc[0],)))
+            break
     # status restored by play
     last_status = None
     for e in rec['events']:
@@ -335,6 +354,17 @@ def judge_c05(rec, check_trace=True):
     if check_trace and rec.get('inconclusive') is None:
         out.extend(judge_trace(rec, 'C05'))
     return _dedupe(out)
+
+
+def _selfctl_between(rec, act_n, q):
+    """Did the program itself issue play/kill between action act_n and quiescent point q?"""
+    seen = False
+    for e in rec['events'][:q['nev']]:
+        if e[0] == 'act' and e[1] == act_n:
+            seen = True
+        elif seen and e[0] == 'trace' and e[1] == 'ctl' and e[2] in ('play', 'kill'):
+            return True
+    return False
 
 
 def judge_trace(rec, who):
@@ -367,4 +397,113 @@ def judge_trace(rec, who):
             out.append(V('final-exception', 'final-exception:%s' % pat, 'exception %s expected ProgError(%s)' % (fin['exception'], payload['tag'])))
         elif st == 'killed' and (fin['killed_msg'][0] != 'ok' or fin['killed_msg'][1].get('message') != payload['text']):
             out.append(V('final-killmsg', 'final-killmsg:%s' % pat, 'killed_msg %s expected %s' % (fin['killed_msg'], payload['text'])))
+    return out
+
+
+# ---------------------------------------------------------------------------------------
+def _wc_expected_value(rec, idx, kind):
+    if kind == 'child':
+        return {'o': 'child-%s-out' % idx}
+    for c in rec['extra']['completions']:
+        if c[0] == idx and c[1][0] == 'value':
+            return c[1][1]
+    return None
+
+
+def _wc_failures(rec, step):
+    """Effective failing completions of the items registered in ``step``, in delivery order."""
+    regs = {(('c', idx) if kind == 'child' else idx): (key, kind) for key, idx, kind, _h in step['reg']}
+    out = []
+    for c in rec['extra']['completions']:
+        ident = tuple(c[0]) if isinstance(c[0], list) else c[0]
+        if ident in regs and c[1][0] in ('exc', 'cancel', 'killed'):
+            out.append((ident, c[1]))
+    order = [tuple(d) if isinstance(d, list) else d for d in rec['extra'].get('done_order', [])]
+    out.sort(key=lambda f: order.index(f[0]) if f[0] in order else len(order))
+    return out
+
+
+def judge_c10(rec, barrier_only=False):
+    out = []
+    program = rec['case']['program']
+    steps = program['steps']
+    entered = {}
+    for e in rec['events']:
+        if e[0] == 'trace' and e[1] == 'enter':
+            entered[e[2]] = e
+    pat = '>'.join(act_pattern(rec, plan_only=True))
+    shape = '+'.join('%s/%s' % (kind, how) for st in steps for _k, _i, kind, how in st['reg'])
+    for i, e in sorted(entered.items()):
+        ctxvals, dones = e[5], e[6]
+        latest = {}
+        dup = set()
+        for prev in steps[:i]:
+            seen_here = set()
+            for key, idx, kind, _how in prev['reg']:
+                if not dones.get(str(idx), False):
+                    out.append(V('barrier-open', 'barrier-open:%s:%s' % (kind, shape),
+                                 'step %d entered while awaited %s %s (key %s) is not done; acts %s' % (i, kind, idx, key, pat)))
+                if key in seen_here:
+                    dup.add(key)
+                seen_here.add(key)
+                latest[key] = (idx, kind)
+        if barrier_only:
+            continue
+        for key, (idx, kind) in latest.items():
+            if key in dup:
+                continue
+            exp = _wc_expected_value(rec, idx, kind)
+            if exp is None:
+                continue  # the item did not complete with a value (failures are judged below)
+            if ctxvals.get(key) != exp:
+                out.append(V('ctx-wrong', 'ctx-wrong:%s:%s' % (kind, shape),
+                             'at entry of step %d ctx[%s]=%r, expected %r (acts %s)' % (i, key, ctxvals.get(key), exp, pat)))
+    # failures: EXCEPTED with the first failure, the following step never runs
+    for k, st in enumerate(steps):
+        if k not in entered or not st['reg']:
+            continue
+        fails = _wc_failures(rec, st)
+        if not fails:
+            continue
+        fin = rec['final']
+        if (k + 1) in entered:
+            out.append(V('step-after-failure', 'step-after-failure:%s:%s' % (fails[0][1][0], shape),
+                         'step %d ran although awaited item %s failed (%s)' % (k + 1, fails[0][0], fails[0][1])))
+        if fin['state'] != 'excepted':
+            if fin['terminated'] or rec.get('stuck') is not None:
+                out.append(V('failure-not-excepted', 'failure-not-excepted:%s:%s:%s' % (fails[0][1][0], fin['state'], shape),
+                             'awaited item %s failed (%s) but the workchain is %s (stuck=%s)' % (fails[0][0], fails[0][1], fin['state'], rec.get('stuck'))))
+        else:
+            exc = fin['exception']
+            def matches(f):
+                ident, oc = f
+                if oc[0] == 'exc':
+                    tag = oc[1] if not isinstance(ident, tuple) else 'child-%s-failed' % ident[1]
+                    return exc == ['ProgError', tag]
+                if oc[0] == 'cancel':
+                    return exc is not None and 'Cancel' in exc[0]
+                if oc[0] == 'killed':
+                    return exc is not None and exc[0] == 'KilledError'
+                return False
+            if not any(matches(f) for f in fails):
+                out.append(V('wrong-failure', 'wrong-failure:%s:%s' % (fails[0][1][0], shape),
+                             'workchain EXCEPTED with %s, awaited failures were %s' % (exc, fails)))
+            elif len(fails) > 1 and not matches(fails[0]):
+                # only judged when every failure was delivered while the workchain was already waiting
+                idents = {f[0] for f in fails}
+                in_wait = all(a['state_before'] == 'waiting' for a in rec['acts'] if a['kind'] in ('complete', 'child')
+                              and ((a['arg'][0] if a['kind'] == 'complete' else ('c', a['arg'][0])) in idents))
+                if in_wait and not matches(fails[0]):
+                    out.append(V('not-first-failure', 'not-first-failure:%s' % shape,
+                                 'workchain EXCEPTED with %s but the first failure was %s' % (exc, fails[0])))
+        break
+    return _dedupe(out)
+
+
+def judge_c06_wc(rec):
+    out = []
+    pat = '>'.join(act_pattern(rec, plan_only=True))
+    if rec.get('stuck') is not None:
+        out.append(V('wakeup-lost', 'wakeup-lost:%s:%s' % (rec['stuck']['state'] + ('/paused' if rec['stuck']['paused'] else ''), pat),
+                     'every awaited item completed and the process was played, but the loop is quiescent with the workchain %s' % (rec['stuck'],)))
     return out
